@@ -239,6 +239,18 @@ func c19Malformed(r *rand.Rand) string {
 	case 9: // enum definitions gone wrong
 		w := []string{"8", "16", "32", ""}[r.Intn(4)]
 		ds := []string{"'a'", "'a'=", "'a'=x", "=1", "'a'=1,", ",'a'=1", "'a'=1,,'b'=2", "'a'==1", "'a,b'=1", "'a'=1='b'", "a=1", "'a' = +1", "'a'=99999999999999999999"}
+		if r.Intn(2) == 0 {
+			// generated: every combination of oddly quoted names (a lone quote, an empty name, a half-quoted or doubly
+			// quoted one), separators and values, one to three definitions
+			names := []string{"'", "''", "'a", "a'", "'a'", "\"a\"", "", " ", "'\\''", "'a\\'", "''a''", "' '", "'''", "' a '", "'='", "','"}
+			eqs := []string{"=", " = ", "= ", " =", "==", ""}
+			vals := []string{"1", "-1", "x", "", "+1", " 1 ", "127", "128", "-129", "32768", "0"}
+			var parts []string
+			for k := 1 + r.Intn(3); k > 0; k-- {
+				parts = append(parts, names[r.Intn(len(names))]+eqs[r.Intn(len(eqs))]+vals[r.Intn(len(vals))])
+			}
+			return "Enum" + w + "(" + strings.Join(parts, c19Comma(r)) + ")"
+		}
 		return "Enum" + w + "(" + ds[r.Intn(len(ds))] + ")"
 	case 10: // parentheses swapped
 		return strings.NewReplacer("(", ")", ")", "(").Replace(t)
